@@ -229,8 +229,8 @@ class C04(Prop):
                     'stub': ['file-system seam (io.FileIO subclass, os wrappers)', 'KVFile twin (counts ops, raises sqlite3.OperationalError)', 'seam B twins for the parallelize pipelines']}
     PROBES = ['fault-not-reached', 'observer-after-failure', 'fault-in-package-phase', 'fault-at-exhaustion', 'fault-after-all', 'io-error-fired', 'kv-error-fired',
               'source-raise-in-sample', 'source-raise-after-sample', 'parallelize-upstream-raise', 'parallelize-downstream-raise', 'prebuilt-processor-error', 'poison-fired', 'sweep-complete'] + ['in-failed-pipeline:' + k for k in sorted(ST.GENS)]
-    TIERS = {'quick': dict(runs=900, wall=100, run_wall=120),
-             'thorough': dict(runs=25000, wall=1700, run_wall=300)}
+    TIERS = {'quick': dict(runs=900, wall=100, run_wall=300),
+             'thorough': dict(runs=25000, wall=1700, run_wall=600)}
     SHRINK_FROZEN = ('fields', 'gen_stats')
 
     def generate(self, rng, tier):
